@@ -126,7 +126,40 @@ func (c *ctx) runOp(line string) string {
 			c.checkAlloc("decode-alloc", r.Alloc, len(body), capBuf, line)
 			return fmt.Sprintf("tail %d consumed=%d", r.Tail, r.Consumed)
 		}
+		if r.Detail == "EOF" {
+			// a clean io.EOF from the decoder is what callers treat as the graceful end of a stream
+			c.rep.Fail("truncation-reported-as-eof", "a frame body that ends early is reported as a clean io.EOF instead of an unexpected-EOF error", []string{line})
+		}
 		return "error " + r.Detail
+	case "srvseq":
+		// several frames decoded on one endpoint server; fields are read after the last one
+		var frames [][]byte
+		for _, h := range strings.Split(ws[len(ws)-1], ",") {
+			frames = append(frames, hx.UnHex(h))
+		}
+		c.j.Risky(line)
+		res, p := sniproxy.VerifServerFrames(frames)
+		if p != "" {
+			c.rep.Fail("srv-panic", "startCall panicked: "+p, []string{line})
+			return "panic"
+		}
+		var outs []string
+		for i, r := range res {
+			switch r.Outcome {
+			case "request":
+				outs = append(outs, fmt.Sprintf("request id=%d typ=%d vals=[%s]", r.ID, r.Typ, showVals(r.Vals)))
+			case "unknownType":
+				outs = append(outs, fmt.Sprintf("unknownType id=%d typ=%d", r.ID, r.Typ))
+			default:
+				outs = append(outs, r.Outcome)
+			}
+			// direct oracle: each request still holds what its own frame carried
+			o, id, typ, vals, _ := sniproxy.VerifServerFrame(frames[i])
+			if o == "request" && r.Outcome == "request" && (id != r.ID || typ != r.Typ || showVals(vals) != showVals(r.Vals)) {
+				c.rep.Fail("request-altered-by-later-frame", fmt.Sprintf("request %d of a sequence decoded on one server holds [%s] after the later frames were decoded; its own frame carries [%s]", i, showVals(r.Vals), showVals(vals)), []string{line})
+			}
+		}
+		return strings.Join(outs, " ; ")
 	case "srv":
 		frame := hx.UnHex(ws[len(ws)-1])
 		c.j.Risky(line)
@@ -545,6 +578,17 @@ func main() {
 		g.garbage(ngarb)
 		g.srvOps(nsrv)
 		g.cliOps(ncli)
+		for i := 0; i < nsrv/10; i++ {
+			var hs []string
+			for k := 2 + g.r.Intn(4); k > 0; k-- {
+				ty := hx.Pick(g.r, []string{"writeRequest", "writeRequest", "helloRequest", "dialSide2Request", "readRequest"})
+				codes := map[string]uint8{"writeRequest": 3, "helloRequest": 1, "dialSide2Request": 9, "readRequest": 4}
+				body, _ := sniproxy.VerifEncode(ty, g.vals(ty))
+				hs = append(hs, hx.Hex(append(append(u64le(uint64(g.r.Intn(100))), codes[ty]), body...)))
+			}
+			g.add("srvseq "+strings.Join(hs, ","), true)
+			g.rep.Count("srvseq")
+		}
 		for _, v := range boundaryNums {
 			g.add(fmt.Sprintf("readalloc v=%d", v), true)
 		}
